@@ -40,6 +40,9 @@ var anchoredFiles = []string{
 	"graphql/schema/builtins.go", "graphql/schema/schema.go", "graphql/schema/list_type.go", "graphql/schema/input_object_type.go", "graphql/schema/enum_type.go", "graphql/schema/scalar_type.go",
 	"graphql/executor/executor.go", "graphql/executor/error.go", "graphql/executor/path.go", "graphql/executor/ordered_map.go", "graphql/executor/grouped_field_set.go",
 	"graphql/executor/internal/future/future.go", "graphql/graphql.go", "graphql/ast/inspect.go", "graphql/ast/ast.go",
+	// the entry points a request reaches the pipeline through: HTTP, both WebSocket protocols, persisted queries
+	"api.go", "graphqlws.go", "persisted_query.go", "subscription.go",
+	"graphql/transport/graphqlws/connection.go", "graphql/transport/graphqltransportws/connection.go",
 }
 
 func inventory(repo string) ([]site, error) {
